@@ -358,4 +358,191 @@ theorem zoneExclusion_roundtrip (zs : List Zone) :
       rw [zoneToXml_tag]; exact matchesName_outName "zone"
     simp [parseZoneExclusion, zoneExclusionToXml, h, parseZoneExclusionElement, Xml.children, hf, mapM_parseZone']
 
+/-! ### positionOffset -/
+
+def PositionOffset.nonzero : PositionOffset → Prop
+  | .polar a e d => a ≠ 0 ∨ e ≠ 0 ∨ d ≠ 0
+  | .cartesian x y z => x ≠ 0 ∨ y ≠ 0 ∨ z ≠ 0
+
+theorem positionOffset_roundtrip (p : Option PositionOffset) (h : ∀ q, p = some q → q.nonzero) :
+    parsePositionOffset (positionOffsetToXml p) = some p := by
+  cases p with
+  | none => simp [parsePositionOffset, positionOffsetToXml, offsetFinish]
+  | some q =>
+    have hq := h q rfl
+    cases q with
+    | polar a e d =>
+      simp only [PositionOffset.nonzero] at hq
+      by_cases ha : a = 0 <;> by_cases he : e = 0 <;> by_cases hd : d = 0 <;>
+        simp [parsePositionOffset, positionOffsetToXml, dumpOffset, offsetStep, offsetFinish, subsetKeys, attr?, elem,
+          Xml.attrs, Xml.text, loadsNum_dumpsNum, Dict.get?, ha, he, hd] <;> simp_all
+    | cartesian a e d =>
+      simp only [PositionOffset.nonzero] at hq
+      by_cases ha : a = 0 <;> by_cases he : e = 0 <;> by_cases hd : d = 0 <;>
+        simp [parsePositionOffset, positionOffsetToXml, dumpOffset, offsetStep, offsetFinish, subsetKeys, attr?, elem,
+          Xml.attrs, Xml.text, loadsNum_dumpsNum, Dict.get?, ha, he, hd] <;> simp_all
+
+/-- the excluded point (also evaluated on the real code by the harness): an all-zero offset writes nothing and
+comes back as `None` -/
+theorem positionOffset_zero_excluded :
+    parsePositionOffset (positionOffsetToXml (some (.polar 0 0 0))) = some none ∧
+    parsePositionOffset (positionOffsetToXml (some (.cartesian 0 0 0))) = some none := by
+  constructor <;> simp [parsePositionOffset, positionOffsetToXml, dumpOffset, offsetFinish]
+
+example : PositionOffset.nonzero (.polar 0 (-1050000) 0) := Or.inr (Or.inl (by decide))
+
+/-! ### reference screen -/
+
+/-- the values `PolarPosition` accepts (a Cartesian centre position is not range-checked) -/
+def CentrePosition.inRange : CentrePosition → Prop
+  | .polar az el di => -18000000 ≤ az ∧ az ≤ 18000000 ∧ -9000000 ≤ el ∧ el ≤ 9000000 ∧ 0 ≤ di
+  | .cartesian _ _ _ => True
+
+theorem centrePosition_roundtrip (c : CentrePosition) (h : c.inRange) (cur : Option String)
+    (hcur : cur = none ∨ cur = some c.kind) :
+    handleCentrePosition cur (centrePositionToXml c) = some (c, c.kind) := by
+  cases c with
+  | polar az el di =>
+    simp only [CentrePosition.inRange] at h
+    rcases hcur with rfl | rfl <;>
+      simp [handleCentrePosition, centrePositionToXml, hasKey, attrNum?, attr?, elem, Xml.attrs, loadsNum_dumpsNum,
+        handleScreenType, CentrePosition.kind, h]
+  | cartesian x y z =>
+    rcases hcur with rfl | rfl <;>
+      simp [handleCentrePosition, centrePositionToXml, hasKey, attrNum?, attr?, elem, Xml.attrs, loadsNum_dumpsNum,
+        handleScreenType, CentrePosition.kind]
+
+/-- a polar centre position outside the ranges of `PolarPosition` is written but refused on reading -/
+theorem centrePosition_out_of_range :
+    handleCentrePosition none (centrePositionToXml (.polar 18100000 0 100000)) = none := by
+  simp [handleCentrePosition, centrePositionToXml, hasKey, attrNum?, attr?, elem, Xml.attrs, loadsNum_dumpsNum]
+
+def widthKind (cartesian : Bool) : String := if cartesian then "cartesian" else "polar"
+
+theorem screenWidth_roundtrip (cartesian : Bool) (w : Int) (cur : Option String)
+    (hcur : cur = none ∨ cur = some (widthKind cartesian)) :
+    handleScreenWidth cur (screenWidthToXml cartesian w) = some (w, widthKind cartesian) := by
+  cases cartesian <;> rcases hcur with rfl | rfl <;>
+    simp [handleScreenWidth, screenWidthToXml, hasKey, attrNum?, attr?, elem, Xml.attrs, loadsNum_dumpsNum,
+      handleScreenType, widthKind]
+
+/-- centre position and width of different kinds are refused ("Expected … screen data") -/
+theorem screen_kind_mismatch (w : Int) :
+    handleScreenWidth (some "polar") (screenWidthToXml true w) = none := by
+  simp [handleScreenWidth, screenWidthToXml, hasKey, attrNum?, attr?, elem, Xml.attrs, loadsNum_dumpsNum,
+    handleScreenType]
+
+/-! ### interaction ranges -/
+
+def linRange (mn mx : Option Int) : GainRange := ⟨mn.map .linear, mx.map .linear⟩
+
+/-- gainInteractionRange (either version): a range with at least one bound, linear gains on the grid -/
+theorem gainRange_roundtrip (v2 : Bool) (mn mx : Option Int) (h : mn.isSome ∨ mx.isSome) :
+    parseGainRange v2 (gainRangeToXml (some (linRange mn mx))) = some (some (linRange mn mx)) := by
+  cases mn <;> cases mx <;> simp at h <;> cases v2 <;>
+    simp [parseGainRange, gainRangeToXml, linRange, linear?, gainRangeStep, parseGainEl, parseGain, attr?, elem,
+      Xml.attrs, Xml.text, loadsNum_dumpsNum, Dict.get?]
+
+theorem gainRange_none (v2 : Bool) : parseGainRange v2 (gainRangeToXml none) = some none := by
+  simp [parseGainRange, gainRangeToXml]
+
+/-- the excluded point: `InteractionRange()` without bounds writes nothing and comes back as `None` -/
+theorem gainRange_empty_excluded (v2 : Bool) :
+    parseGainRange v2 (gainRangeToXml (some ⟨none, none⟩)) = some none := by
+  simp [parseGainRange, gainRangeToXml, linear?]
+
+def IRange.isEmpty (r : IRange) : Bool := r.min.isNone && r.max.isNone
+
+def dictOfIRange (r : IRange) : Dict Int :=
+  (match r.min with | some k => [("min", k)] | none => []) ++ (match r.max with | some k => [("max", k)] | none => [])
+
+theorem irange_of_dict (r : IRange) : (⟨(dictOfIRange r).get? "min", (dictOfIRange r).get? "max"⟩ : IRange) = r := by
+  obtain ⟨mn, mx⟩ := r
+  cases mn <;> cases mx <;> simp [dictOfIRange, Dict.get?]
+
+/-- the elements written for one coordinate that has not been seen yet -/
+theorem dumpIRange_steps (st : Dict (Dict Int)) (c : String) (r : IRange) (hnew : st.any (·.1 == c) = false) :
+    (dumpIRange c r).foldlM posRangeStep st = some (if r.isEmpty then st else st ++ [(c, dictOfIRange r)]) := by
+  obtain ⟨mn, mx⟩ := r
+  have hget0 : Dict.get? st c = none := by
+    unfold Dict.get?
+    have : st.find? (·.1 == c) = none := by
+      rw [List.find?_eq_none]; intro x hx
+      have := List.any_eq_false.mp hnew x hx; simpa using this
+    simp [this]
+  cases mn <;> cases mx <;>
+    simp [dumpIRange, posRangeStep, attr?, elem, Xml.attrs, Xml.text, loadsNum_dumpsNum, hget0, Dict.set_new, hnew,
+      IRange.isEmpty, dictOfIRange, Dict.get?_append_new, Dict.set_append_last]
+
+def PosRange.nonempty : PosRange → Prop
+  | .polar a e d => a.isEmpty = false ∨ e.isEmpty = false ∨ d.isEmpty = false
+  | .cartesian x y z => x.isEmpty = false ∨ y.isEmpty = false ∨ z.isEmpty = false
+
+theorem irangeOf_absent (st : Dict (Dict Int)) (c : String) (h : st.any (·.1 == c) = false) :
+    irangeOf st c = ⟨none, none⟩ := by
+  unfold irangeOf Dict.get?
+  have : st.find? (·.1 == c) = none := by
+    rw [List.find?_eq_none]; intro x hx
+    have := List.any_eq_false.mp h x hx; simpa using this
+  simp [this]
+
+theorem isEmpty_eq (r : IRange) (h : r.isEmpty = true) : r = ⟨none, none⟩ := by
+  obtain ⟨mn, mx⟩ := r
+  cases mn <;> cases mx <;> simp [IRange.isEmpty] at h ⊢
+
+theorem irangeOf_cons_same (c : String) (r : IRange) (rest : Dict (Dict Int)) :
+    irangeOf ((c, dictOfIRange r) :: rest) c = r := by
+  simp only [irangeOf, Dict.get?, List.find?_cons, beq_self_eq_true, Option.map_some]
+  exact irange_of_dict r
+
+theorem irangeOf_cons_other (c c' : String) (d : Dict Int) (rest : Dict (Dict Int)) (h : (c' == c) = false) :
+    irangeOf ((c', d) :: rest) c = irangeOf rest c := by
+  simp [irangeOf, Dict.get?, h]
+
+theorem irangeOf_nil (c : String) : irangeOf [] c = ⟨none, none⟩ := rfl
+
+/-- the state after the elements of three distinct coordinates -/
+theorem posRange_steps (c1 c2 c3 : String) (a e d : IRange) (h12 : (c1 == c2) = false) (h13 : (c1 == c3) = false)
+    (h23 : (c2 == c3) = false) :
+    (dumpIRange c1 a ++ dumpIRange c2 e ++ dumpIRange c3 d).foldlM posRangeStep [] =
+      some ((if a.isEmpty then [] else [(c1, dictOfIRange a)]) ++ (if e.isEmpty then [] else [(c2, dictOfIRange e)]) ++
+        (if d.isEmpty then [] else [(c3, dictOfIRange d)])) := by
+  rw [foldlM_append', foldlM_append', dumpIRange_steps [] c1 a rfl]
+  simp only [Option.bind_some]
+  rw [dumpIRange_steps _ c2 e (by cases a.isEmpty <;> simp [h12])]
+  simp only [Option.bind_some]
+  rw [dumpIRange_steps _ c3 d (by cases a.isEmpty <;> cases e.isEmpty <;> simp [h13, h23])]
+  cases a.isEmpty <;> cases e.isEmpty <;> cases d.isEmpty <;> simp
+
+/-- positionInteractionRange: polar or Cartesian, any subset of the six bounds as long as one is present -/
+theorem posRange_roundtrip (p : PosRange) (h : p.nonempty) :
+    parsePosRange (posRangeToXml (some p)) = some (some p) := by
+  cases p with
+  | polar a e d =>
+    simp only [PosRange.nonempty] at h
+    unfold parsePosRange posRangeToXml
+    rw [posRange_steps "azimuth" "elevation" "distance" a e d (by decide) (by decide) (by decide)]
+    cases ha : a.isEmpty <;> cases he : e.isEmpty <;> cases hd : d.isEmpty <;> simp only [ha, he, hd] at h <;>
+      (try (simp at h)) <;>
+      (try (have := isEmpty_eq a ha; subst this)) <;> (try (have := isEmpty_eq e he; subst this)) <;>
+      (try (have := isEmpty_eq d hd; subst this)) <;>
+      simp [posRangeFinish, subsetKeys, irangeOf_cons_same, irangeOf_cons_other, irangeOf_nil]
+  | cartesian a e d =>
+    simp only [PosRange.nonempty] at h
+    unfold parsePosRange posRangeToXml
+    rw [posRange_steps "X" "Y" "Z" a e d (by decide) (by decide) (by decide)]
+    cases ha : a.isEmpty <;> cases he : e.isEmpty <;> cases hd : d.isEmpty <;> simp only [ha, he, hd] at h <;>
+      (try (simp at h)) <;>
+      (try (have := isEmpty_eq a ha; subst this)) <;> (try (have := isEmpty_eq e he; subst this)) <;>
+      (try (have := isEmpty_eq d hd; subst this)) <;>
+      simp [posRangeFinish, subsetKeys, irangeOf_cons_same, irangeOf_cons_other, irangeOf_nil]
+
+theorem posRange_none : parsePosRange (posRangeToXml none) = some none := by
+  simp [parsePosRange, posRangeToXml, posRangeFinish, subsetKeys]
+
+/-- the excluded point: a range object without any bound writes nothing and comes back as `None` -/
+theorem posRange_empty_excluded :
+    parsePosRange (posRangeToXml (some (.cartesian ⟨none, none⟩ ⟨none, none⟩ ⟨none, none⟩))) = some none := by
+  simp [parsePosRange, posRangeToXml, dumpIRange, posRangeFinish, subsetKeys]
+
 end Earverif.XmlCustom
